@@ -154,7 +154,7 @@ impl TableRefresh {
 }
 
 // ================= handler.rs =================
-//@begin type src/handler.rs - struct DhtHandler drop=running,command_rx,aid_generator,bootstrap,next_bootstrap_txs_id
+//@begin type src/handler.rs - struct DhtHandler drop=running,command_rx,bootstrap,next_bootstrap_txs_id
 pub struct DhtHandler {
     pub this_node_id: NodeId,
     pub timer: Timer<ScheduledTaskCheck>,
@@ -162,9 +162,12 @@ pub struct DhtHandler {
     pub announce_port: Option<u16>,
     pub socket: Arc<Socket>,
     pub token_store: TokenStore,
+    pub aid_generator: AIDGenerator,
     pub routing_table: Arc<Mutex<RoutingTable>>,
     pub active_stores: AnnounceStorage,
     pub bootstrap_txs: HashMap<u64, oneshot::Sender<()>>,
+    pub initial_bootstrap_done: bool,
+    pub pending_lookups: Vec<StartLookup>,
     pub refresh: TableRefresh,
     pub lookups: HashMap<ActionID, TableLookup>,
 }
@@ -572,6 +575,49 @@ impl DhtHandler {
 //@end
 }
 
+/// the searches started so far: (target, announce) of every LookupStart event, in order
+pub open spec fn starts(ev: Seq<Ev>) -> Seq<(InfoHash, bool)>
+    decreases ev.len()
+{
+    if ev.len() == 0 { Seq::empty() } else {
+        let p = starts(ev.drop_last());
+        match ev.last() { Ev::LookupStart(h, a) => p.push((h, a)), _ => p }
+    }
+}
+/// between o and f nothing but queries was sent (searches may have been started)
+pub open spec fn no_replies(o: Seq<Ev>, f: Seq<Ev>) -> bool {
+    extends(o, f) && forall|i: int| o.len() <= i < f.len() ==> match #[trigger] f[i] { Ev::Send(m, _) => m.body is Request, Ev::TableAdd(_, _) => false, _ => true }
+}
+pub proof fn lemma_starts_push(o: Seq<Ev>, e: Ev)
+    ensures starts(o.push(e)) == (match e { Ev::LookupStart(h, a) => starts(o).push((h, a)), _ => starts(o) })
+{
+    assert(o.push(e).drop_last() =~= o);
+}
+pub proof fn lemma_starts_quiet(o: Seq<Ev>, f: Seq<Ev>)
+    requires only_requests_and_yields(o, f)
+    ensures starts(f) == starts(o)
+    decreases f.len() - o.len()
+{
+    if f.len() == o.len() { assert(f =~= o); } else {
+        let d = f.drop_last();
+        assert(only_requests_and_yields(o, d));
+        lemma_starts_quiet(o, d);
+    }
+}
+pub proof fn lemma_no_replies_trans(a: Seq<Ev>, b: Seq<Ev>, c: Seq<Ev>)
+    requires no_replies(a, b), no_replies(b, c) || only_requests_and_yields(b, c)
+    ensures no_replies(a, c)
+{}
+pub proof fn lemma_no_replies_start(o: Seq<Ev>, ls: Ev, f: Seq<Ev>)
+    requires ls is LookupStart, only_requests_and_yields(o.push(ls), f)
+    ensures no_replies(o, f)
+{
+    assert forall|i: int| o.len() <= i < f.len() implies (match #[trigger] f[i] { Ev::Send(m, _) => m.body is Request, Ev::TableAdd(_, _) => false, _ => true }) by {
+        if i == o.len() { assert(f[i] == o.push(ls)[i]); }
+    }
+    assert(extends(o, f)) by { assert forall|i: int| 0 <= i < o.len() implies #[trigger] f[i] == o[i] by { assert(o.push(ls)[i] == o[i]); } }
+}
+
 impl DhtHandler {
     /// handler invariant between events: store invariant + single refresh chain
     pub open spec fn hinv(&self) -> bool {
@@ -587,10 +633,80 @@ impl DhtHandler {
             ==> (self.timer.pending@.contains_key(id) == o.timer.pending@.contains_key(id) && (o.timer.pending@.contains_key(id) ==> self.timer.pending@[id] == o.timer.pending@[id]))
     }
 
+    /// stand-in for `*self.bootstrap.state_rx.borrow() == State::Bootstrapped` (a watch channel written by the bootstrap task)
+    pub uninterp spec fn spec_bootstrapped(&self) -> bool;
+    #[verifier::external_body]
+    pub fn is_bootstrapped(&self) -> (r: bool) ensures r == self.spec_bootstrapped() { unimplemented!() }
+
+//@begin fn src/handler.rs impl:DhtHandler handle_start_lookup rules=R-deasync props=C16
+    pub fn handle_start_lookup(&mut self, lookup: StartLookup, Tracked(tr): Tracked<&mut Trace>)
+        requires old(self).hinv(),
+        ensures final(self).hinv(), final(self).refresh == old(self).refresh, no_new_refresh(old(self).timer, final(self).timer),
+            final(self).initial_bootstrap_done == old(self).initial_bootstrap_done,
+            // C16: before the initial bootstrap has finished the search is queued, nothing else happens
+            !old(self).initial_bootstrap_done && !old(self).spec_bootstrapped() ==> final(tr).ev == old(tr).ev && final(self).pending_lookups@ == old(self).pending_lookups@.push(lookup), // @C16.queued_before_initial_bootstrap
+            // afterwards it is started at once
+            old(self).initial_bootstrap_done || old(self).spec_bootstrapped() ==> starts(final(tr).ev) == starts(old(tr).ev).push((lookup.info_hash, lookup.announce))
+                && final(self).pending_lookups@ == old(self).pending_lookups@, // @C16.started_immediately_after_bootstrap
+            no_replies(old(tr).ev, final(tr).ev),
+    {
+        // Queue the lookup if the initial bootstrap has not finished yet, it is started once it does.
+        if !self.initial_bootstrap_done && !self.is_bootstrapped() {
+            self.pending_lookups.push(lookup);
+            return;
+        }
+
+        self.start_lookup(lookup, Tracked(tr))
+    }
+//@end
+
+//@begin fn src/handler.rs impl:DhtHandler start_lookup rules=R-deasync props=C16
+    pub fn start_lookup(&mut self, lookup: StartLookup, Tracked(tr): Tracked<&mut Trace>)
+        requires old(self).hinv(),
+        ensures final(self).hinv(), final(self).refresh == old(self).refresh, no_new_refresh(old(self).timer, final(self).timer),
+            final(self).initial_bootstrap_done == old(self).initial_bootstrap_done, final(self).pending_lookups == old(self).pending_lookups,
+            starts(final(tr).ev) == starts(old(tr).ev).push((lookup.info_hash, lookup.announce)), // @C16.search_is_started_with_the_requested_target
+            no_replies(old(tr).ev, final(tr).ev),
+    {
+        broadcast use vstd::std_specs::hash::group_hash_axioms, actionid_key_model;
+        let ghost ev0 = tr.ev;
+        let ghost ls = Ev::LookupStart(lookup.info_hash, lookup.announce);
+        let mid_generator = self.aid_generator.generate();
+        let action_id = mid_generator.action_id();
+
+        let mut lookup = TableLookup::new(
+            lookup.info_hash,
+            lookup.announce,
+            lookup.tx,
+            mid_generator,
+            self.routing_table.clone(),
+            &self.socket,
+            &mut self.timer,
+            Tracked(tr),
+        )
+        ;
+        let ghost ev1 = tr.ev;
+
+        if lookup.completed() {
+            lookup.recv_finished(self.announce_port, &self.socket, Tracked(tr));
+        } else {
+            self.lookups.insert(action_id, lookup);
+        }
+        proof {
+            lemma_starts_push(ev0, ls);
+            lemma_starts_quiet(ev0.push(ls), ev1);
+            lemma_starts_quiet(ev1, tr.ev);
+            lemma_no_replies_start(ev0, ls, ev1);
+            lemma_no_replies_trans(ev0, ev1, tr.ev);
+        }
+    }
+//@end
+
 //@begin fn src/handler.rs impl:DhtHandler handle_check_table_refresh rules=R-deasync props=C18
     pub fn handle_check_table_refresh(&mut self, Tracked(tr): Tracked<&mut Trace>)
         requires old(self).hinv(),
         ensures final(self).hinv(), final(self).frame_non_refresh(*old(self)),
+            final(self).initial_bootstrap_done == old(self).initial_bootstrap_done, final(self).pending_lookups == old(self).pending_lookups,
             final(self).one_refresh_pending(), // @C18.next_round_scheduled_6s_ahead
             only_requests_and_yields(old(tr).ev, final(tr).ev), final(tr).ev.len() <= old(tr).ev.len() + 8, // @C18.round_is_at_most_4_queries
     {
@@ -600,19 +716,46 @@ impl DhtHandler {
     }
 //@end
 
-//@begin fn src/handler.rs impl:DhtHandler handle_bootstrap_success rules=R-deasync props=C18
+//@begin fn src/handler.rs impl:DhtHandler handle_bootstrap_success rules=R-deasync props=C18,C16
     pub fn handle_bootstrap_success(&mut self, Tracked(tr): Tracked<&mut Trace>)
         requires old(self).hinv(),
         ensures final(self).hinv(), // @C18.single_refresh_chain
-            final(self).frame_non_refresh(*old(self)),
             final(self).one_refresh_pending(), // @C18.one_round_per_bootstrap_completion
-            only_requests_and_yields(old(tr).ev, final(tr).ev), final(tr).ev.len() <= old(tr).ev.len() + 8,
+            // C16: every search queued before the initial bootstrap finished is started now, in order; none stays queued
+            final(self).initial_bootstrap_done && final(self).pending_lookups@.len() == 0, // @C16.queue_emptied_at_bootstrap_completion
+            starts(final(tr).ev) == starts(old(tr).ev) + Seq::new(old(self).pending_lookups@.len(), |i: int| (old(self).pending_lookups@[i].info_hash, old(self).pending_lookups@[i].announce)), // @C16.queued_searches_started_at_bootstrap_completion
+            no_replies(old(tr).ev, final(tr).ev),
     {
+        broadcast use vec_default_is_empty;
+        let ghost ev0 = tr.ev;
+        let ghost q = self.pending_lookups@;
         // Send notification that the bootstrap has completed.
         vx_notify_all(&mut self.bootstrap_txs);
 
+        // Start the lookups that were requested before the initial bootstrap has finished.
+        self.initial_bootstrap_done = true;
+        let pending_lookups = std::mem::take(&mut self.pending_lookups);
+        for lookup in it: pending_lookups
+            invariant self.hinv(), self.initial_bootstrap_done, self.pending_lookups@.len() == 0,
+                it.snapshot@.remaining() == q, 0 <= it.index@ <= q.len(),
+                starts(tr.ev) == starts(ev0) + Seq::new(it.index@ as nat, |i: int| (q[i].info_hash, q[i].announce)),
+                no_replies(ev0, tr.ev),
+        {
+            let ghost k = it.index@;
+            let ghost evb = tr.ev;
+            self.start_lookup(lookup, Tracked(tr));
+            proof {
+                assert(lookup == q[k]);
+                lemma_no_replies_trans(ev0, evb, tr.ev);
+                assert(Seq::new((k + 1) as nat, |i: int| (q[i].info_hash, q[i].announce)) =~= Seq::new(k as nat, |i: int| (q[i].info_hash, q[i].announce)).push((q[k].info_hash, q[k].announce)));
+            }
+        }
+        proof { assert(Seq::new(q.len(), |i: int| (q[i].info_hash, q[i].announce)) =~= Seq::new(old(self).pending_lookups@.len(), |i: int| (old(self).pending_lookups@[i].info_hash, old(self).pending_lookups@[i].announce))); }
+
         // Start the refresh action.
+        let ghost ev1 = tr.ev;
         self.handle_check_table_refresh(Tracked(tr));
+        proof { lemma_starts_quiet(ev1, tr.ev); lemma_no_replies_trans(ev0, ev1, tr.ev); }
     }
 //@end
 
